@@ -7,8 +7,30 @@ allp = [json.loads(l)['id'] for l in open(os.path.join(props.VERIF, 'properties.
 checks = []
 root = open(os.path.join(props.LEAN, 'Pm.lean')).read()
 claimed = [p for p in props.PROPS if ('import Pm.Props.%s\n' % p) in root]
+import common
+NOTES = {
+ 'C04': 'partial: the quantitative time bound under arbitrary reconnect storms is not proved',
+ 'C05': 'partial: non-interference through a general client phase and equality of real completion times are not proved',
+ 'C06': 'partial: memory safety of the C code beyond the modelled buffers is observed under ASan/UBSan, not proved; lines >= 128 KiB are not in the model yet',
+ 'C07': 'partial: memory safety of the C code beyond the modelled buffers is observed under ASan/UBSan, not proved',
+ 'C08': 'partial: the refinement carries a nesting-depth hypothesis that is an artefact of the mirror (being removed)',
+ 'C09': 'partial: buffer capacity (cbuf indices, overflow) is not modelled',
+ 'C11': 'partial: client-id wrap at INT_MAX is outside the unbounded-Nat model',
+ 'C15': 'partial: CR/LF-freeness of data-carrying lines is a hypothesis of the stream theorems',
+ 'C16': 'partial: memory safety of the remaining C is observed under ASan, not proved',
+ 'C17': 'acceptance by the parser and regcomp is observed (the translator is the real parser); the static predicate is decided in the kernel for every shipped statement',
+ 'C18': 'partial: the flex/bison automata, malloc and regcomp are not modelled; their behaviour on arbitrary input is observed under sanitizers',
+ 'C20': 'partial: real descriptors, children and heap are observed (ledger predicates, LeakSanitizer at shutdown), the ledger invariants are proved on the model',
+}
 for pid, d in props.PROPS.items():
     if pid not in claimed: continue
+    nthm = len(common.theorems_of(os.path.join(props.LEAN, 'Pm', 'Props', pid + '.lean')))
+    layers = ', '.join(L.name for L in d['layers'])
+    d = dict(d)
+    d.setdefault('level_text', '%d Lean 4 theorems (Pm/Props/%s.lean) about an executable model of the anchored C code, proved for all inputs/states/histories the property quantifies over; the model is tied to /repo on every run by regenerated tables and by a differential correspondence run (%s) against the real functions built from the working tree; independent predicates on the implementation\'s own trace turn a broken tie into a replayable failing input. %s' % (nthm, pid, layers, NOTES.get(pid, '')))
+    d.setdefault('level_note', 'Trusted: Lean 4.33 kernel, axioms propext/Classical.choice/Quot.sound only (audited per theorem on every run), the translator, the correspondence harness and the reach of its generators (distribution in the evidence), glibc regexec as a recorded oracle. See DESIGN.md sections 8 and 9.')
+    d.setdefault('technique', 'machine-checked proof in Lean 4 over a hand-written model; correspondence by differential execution (' + layers + ')')
+    d.setdefault('engine', 'lean+correspondence')
     checks.append(dict(
         property_id=pid, quick_cmd='./check %s quick' % pid, thorough_cmd='./check %s thorough' % pid,
         evidence_file='/verif/evidence/%s.json' % pid, replay_cmd_template='./check replay {path}',
